@@ -1,10 +1,11 @@
 (* C04 — each plugin sees the container exactly as the earlier plugins left it.
    Only statements here; proofs are in Proofs/ResultProofs.v and Proofs/Combine*.v.  The predicates are
-   those evaluated by holds_C04 (Run/RunAdapt.v): obs_eqb, apply_all, adjs_of, res_obs_eqb, own_overlay,
-   some_dropped. *)
+   those evaluated by holds_C04 (Run/RunAdapt.v): obs_eqb, apply_all, adjs_of, res_obs_eqb, own_overlay_nd
+   (Spec/UpdateView.v); own_overlay / some_dropped for the earlier, weaker update-view theorem. *)
 From Coq Require Import String List Bool.
-From NRI Require Import Model.Types Model.Result Spec.Apply Spec.AbsLedger Run.RunAdapt Proofs.ResultProofs
-  Proofs.CombineWf Proofs.CombineProofs Proofs.CombineView Proofs.CombineUpdate Proofs.CombineHolds Proofs.CombineWitness.
+From NRI Require Import Model.Types Model.Result Spec.Apply Spec.AbsLedger Spec.UpdateView Run.RunAdapt Proofs.ResultProofs
+  Proofs.CombineWf Proofs.CombineProofs Proofs.CombineView Proofs.CombineUpdate Proofs.CombineHolds Proofs.CombineWitness
+  Proofs.UpdateViewProofs.
 Import ListNotations.
 
 (* the first plugin sees exactly what the runtime submitted *)
@@ -83,14 +84,44 @@ Theorem C04_update_view_ok :
 Proof. exact update_view_ok. Qed.
 Print Assumptions C04_update_view_ok.
 
+(* update requests at full strength — no "nothing dropped" hypothesis, nothing assumed of the responses: at
+   EVERY position i at which a plugin was asked, the resources shown are the runtime's requested resources
+   overlaid with those own-container updates of the plugins before i that were not dropped
+   (own_overlay_nd, Spec/UpdateView.v: "dropped" as the abstract ledger of Spec/AbsLedger.v flags it).  A
+   dropped ignore-failure update contributes nothing to what later plugins see, whatever fields it names and
+   wherever its refused claim stands among them.  Exactly the RUpdate branch of holds_C04. *)
+Theorem C04_update_view_full :
+  forall id req rps i v,
+    nth_error (fst (run_request (RUpdate id req) rps)) i = Some v ->
+    exists x, v = ShownResources x /\ res_obs_eqb x (own_overlay_nd id req (firstn i rps)) = true.
+Proof. exact update_view_full. Qed.
+Print Assumptions C04_update_view_full.
+
+(* it subsumes C04_update_view: without a hard conflict and without a drop the two overlays are the same *)
+Theorem C04_overlays_agree_without_drop :
+  forall id req rps,
+    abs_conflict None rps = false -> some_dropped None rps = false ->
+    own_overlay_nd id req rps = own_overlay id req rps.
+Proof. exact own_overlay_nd_no_drop. Qed.
+Print Assumptions C04_overlays_agree_without_drop.
+
+(* non-vacuity: the third plugin of wit_ups ({CpuShares=1}, {CpuShares=2, ignore-failure} dropped,
+   {CpuShares=3}) is shown CpuShares=1 — the position C04_update_view is silent about (see
+   C04_update_dropped_necessary below) *)
+Example C04_update_view_full_example :
+  exists x, nth_error (fst (run_request (RUpdate "c" res_empty) wit_ups)) 2 = Some (ShownResources x) /\
+            res_obs_eqb x (own_overlay_nd "c" res_empty (firstn 2 wit_ups)) = true /\
+            some_dropped None (firstn 2 wit_ups) = true.
+Proof. eexists. split; [vm_compute; reflexivity|]. split; vm_compute; reflexivity. Qed.
+
 Example C04_update_example :
   some_dropped None ex_ups = false /\ exists s, snd (run_request (RUpdate "c" ex_req) ex_ups) = Ok s.
 Proof. split; [exact ex_ups_not_dropped|exact ex_ups_succeeds]. Qed.
 
 (* theorem and run-time check coincide: the predicate holds_C04 of Run/RunAdapt.v, evaluated on a case whose
    recorded views are the model's, is true for creation, update and stop requests alike — for ALL inputs: the
-   predicate carries the theorems' guards itself (W4 per position for creation, "nothing dropped before" per
-   position for updates) *)
+   predicate carries the theorems' guard itself (W4 per position for creation; none for updates, which are
+   judged at every position by own_overlay_nd) *)
 Theorem C04_holds_on_model :
   forall case : adapt_case,
     ac_views case = fst (run_request (ac_req case) (ac_resps case)) ->
@@ -99,8 +130,8 @@ Proof. exact holds_C04_on_model. Qed.
 Print Assumptions C04_holds_on_model.
 
 (* the hypotheses are necessary: W4 (args = [""] empties the command line shown to the next plugin), and, for
-   update requests, the per-prefix "nothing dropped" hypothesis (a later hard conflict hides the drop from
-   some_dropped of the whole history) *)
+   the plain overlay own_overlay of C04_update_view, the per-prefix "nothing dropped" hypothesis (a later hard
+   conflict hides the drop from some_dropped of the whole history) — C04_update_view_full needs none *)
 Theorem C04_w4_necessary :
   exists x, nth_error (fst (run_request (RCreate wit_c0) wit_args_w4)) 1 = Some (ShownContainer x) /\
             obs_eqb x (apply_all wit_c0 (firstn 1 (adjs_of wit_args_w4))) = false.
